@@ -100,7 +100,7 @@ fn program_of(kind: &Kind, cin: usize, contracts: &[ContentAddress]) -> Vec<Op> 
     ops
 }
 
-struct Built { pred: Predicate, programs: Vec<Program>, data_keys: Vec<Key> }
+struct Built { pred: Predicate, programs: Vec<Program>, data_keys: Vec<Key>, data_muts: Vec<Mutation> }
 
 /// Abstract random DAG -> numbering with non-leaves first (arbitrary, usually non-topological order) -> CSR encoding.
 fn gen_dag(rng: &mut Rng, contracts: &[ContentAddress], keys: &[Key]) -> Built {
@@ -183,9 +183,10 @@ fn gen_dag(rng: &mut Rng, contracts: &[ContentAddress], keys: &[Key]) -> Built {
         nodes.push(Node { edge_start, program_address: addr });
         programs.push(prog);
     }
-    let mut data_keys: Vec<Key> = vec![];
-    for k in &kinds { if let Kind::LeafData(w) = k { if let Ok(ms) = essential_types::solution::decode::decode_mutations(w) { data_keys.extend(ms.into_iter().map(|m| m.key)); } } }
-    Built { pred: Predicate { nodes, edges }, programs, data_keys }
+    let mut data_muts: Vec<Mutation> = vec![];
+    for k in &kinds { if let Kind::LeafData(w) = k { if let Ok(ms) = essential_types::solution::decode::decode_mutations(w) { data_muts.extend(ms); } } }
+    let data_keys: Vec<Key> = data_muts.iter().map(|m| m.key.clone()).collect();
+    Built { pred: Predicate { nodes, edges }, programs, data_keys, data_muts }
 }
 
 /// Raw random node/edge vectors: overlapping ranges, leaves in the middle, invalid ranges, cycles, self loops, dangling targets.
@@ -206,7 +207,7 @@ fn gen_raw(rng: &mut Rng) -> Built {
         nd.program_address = essential_hash::content_addr(&prog);
         programs.push(prog);
     }
-    Built { pred: Predicate { nodes, edges }, programs, data_keys: vec![] }
+    Built { pred: Predicate { nodes, edges }, programs, data_keys: vec![], data_muts: vec![] }
 }
 
 pub struct GCase {
@@ -263,6 +264,8 @@ pub fn gen_case(rng: &mut Rng) -> GCase {
             let taken = sols.iter().any(|s: &Solution| s.predicate_to_solve.contract == c && s.state_mutations.iter().any(|m| m.key == k));
             if !muts.iter().any(|m| m.key == k) && !taken { muts.push(Mutation { key: k, value: if rng.chance(1, 5) { vec![] } else { vec![rng.range(1, 90)] } }); }
         }
+        // now and then the solution declares exactly (same key, same value) what one of its data outputs computes
+        if rng.chance(1, 6) { if let Some(m) = b.data_muts.first() { if !muts.iter().any(|x| x.key == m.key) { muts.push(m.clone()); } } }
         proposed.push((c.clone(), muts.iter().map(|m| m.key.clone()).chain(b.data_keys.iter().cloned()).collect()));
         sols.push(Solution { predicate_to_solve: PredicateAddress { contract: c, predicate: paddr },
             predicate_data: (0..rng.range(0, 2)).map(|_| vec![rng.small()]).collect(), state_mutations: muts });
